@@ -242,9 +242,26 @@ LoopBoxes:
 	return f, nil
 }
 
-// Size - total size of all boxes
+// Size - total size of what Encode writes: init segment, sidx boxes, media segments and mfra for a fragmented
+// file in segment mode, otherwise all boxes
 func (f *File) Size() uint64 {
 	var totSize uint64 = 0
+	if f.isFragmented && f.FragEncMode == EncModeSegment {
+		// What Encode writes in segment mode
+		if f.Init != nil {
+			totSize += f.Init.Size()
+		}
+		for _, sidx := range f.Sidxs {
+			totSize += sidx.Size()
+		}
+		for _, seg := range f.Segments {
+			totSize += seg.Size()
+		}
+		if f.Mfra != nil {
+			totSize += f.Mfra.Size()
+		}
+		return totSize
+	}
 	for _, f := range f.Children {
 		totSize += f.Size()
 	}
